@@ -700,6 +700,25 @@ def run(ctx):
             if b2['_d_'].isidentifier() and has(
                     f"{b2['_d_']} = _all_.pop({K}, __)", fn):
                 ok = True
+        # ... or as a conditional expression `cfg if F is None else F`
+        for ie in ast.walk(fn):
+            if not isinstance(ie, ast.IfExp):
+                continue
+            t = ast.unparse(ie.test).replace(' ', '')
+            if t == f'{F}isNone':
+                cfgv, termv = ie.body, ie.orelse
+            elif t == f'{F}isnotNone':
+                cfgv, termv = ie.orelse, ie.body
+            else:
+                continue
+            if ast.unparse(termv) != F:
+                continue
+            if isinstance(cfgv, ast.Name):
+                cfgv_ok = has(f"{cfgv.id} = _all_.pop({K}, __)", fn)
+            else:
+                from ..core.template import same as _same
+                cfgv_ok = _same(f'_all_.pop({K}, __)', cfgv) is not None
+            ok = ok or cfgv_ok
         ctx.check('C18.Q4.precedence', f'[files] terminal value of {K}', ok,
                   f'the terminal value of {K} does not override the '
                   'configuration file (expected: use the configuration value '
